@@ -396,7 +396,13 @@ def _used_names_in_file(filename: Path) -> Collection[str]:
     ast_root = core.parse(source)
     imported_names = tracing.get_imported_names(ast_root)
 
-    names = []
+    # A name that is imported under an alias is known by its original name in the other file
+    names = [
+        alias.name
+        for node in core.walk(ast_root, ast.ImportFrom)
+        for alias in node.names
+        if alias.asname is not None
+    ]
     for node in core.walk(ast_root, (ast.Name, ast.Attribute)):
         if isinstance(node, ast.Name) and node.id in imported_names:
             names.append(node.id)
